@@ -16,9 +16,10 @@ type Hole struct {
 	SQLPrefix string // text the SQL name carries before the content (render property columns)
 	A, B      string // two benign contents
 	Alpha     string // alphabet for constrained holes ("" = all bytes)
+	IntOnly   bool   // number positions that take integer literals only (row counts)
 }
 
-// Holes are the 19 content positions of C04.
+// Holes are the content positions of C04.
 var Holes = []Hole{
 	{Pre: "T | where a == '", Post: "'", Open: 1, Close: 1, Kind: "string", A: "x", B: "y"},
 	{Pre: "T | where a == \"", Post: "\"", Open: 1, Close: 1, Kind: "string", A: "x", B: "y"},
@@ -39,6 +40,12 @@ var Holes = []Hole{
 	{Pre: "T | where q", Post: " == 1", Kind: "ident", A: "x", B: "y", Alpha: "az_09AZ$"},
 	{Pre: "T | where a == ", Post: " and b", Kind: "number", A: "1", B: "2", Alpha: "0179.eE+-xXaAfF"},
 	{Pre: "T | extend b == '", Post: "'", Open: 1, Close: 1, Kind: "implicit", A: "x", B: "y"},
+	// 19-23: names and numbers in further contexts (second round of seeded changes)
+	{Pre: "A | join (B | as `", Post: "`) on k", Open: 1, Close: 1, Kind: "name", A: "x", B: "y"},
+	{Pre: "T | where a == -", Post: " and b", Kind: "number", A: "1", B: "2", Alpha: "0179.eE+-xXaAfF"},
+	{Pre: "T | take ", Post: "", Kind: "number", A: "1", B: "2", Alpha: "0179xXaAfF", IntOnly: true},
+	{Pre: "T | as `", Post: "` | where a | join (U) on k | count", Open: 1, Close: 1, Kind: "name", A: "x", B: "y"},
+	{Pre: "T | sort by `", Post: "` desc", Open: 1, Close: 1, Kind: "name", A: "x", B: "y"},
 }
 
 // holeTokens returns the indexes of the tokens that differ between two token lists of equal shape.
@@ -82,9 +89,20 @@ func CheckContent(hp Hole, content string) {
 		}
 	}
 	pqlValue := toks[hi].Value
+	// the value written in PQL is taken from the reference token language, not from the
+	// lexer under test (their agreement is C09's subject; here a disagreement would let a
+	// wrong value pass as "faithfully transmitted")
+	if ref, stop := RefScan(src); stop < 0 && len(ref) == len(toks) && ref[hi].Kind == toks[hi].Kind && ref[hi].CheckValue && ref[hi].Kind != parser.TokenError {
+		pqlValue = ref[hi].Value
+		verif.Cover("reference-value")
+	}
 	pqlName := pqlValue
 	if hp.Kind == "implicit" {
 		pqlName = src[len("T | extend "):] // the column is named after its source text
+	}
+	if hp.IntOnly {
+		lit := &parser.BasicLit{Kind: toks[hi].Kind, Value: toks[hi].Value}
+		verif.Assume(lit.IsInteger())
 	}
 	verif.Cover("content-admitted")
 
@@ -152,6 +170,41 @@ func H_C04(p, m int) {
 	CheckContent(hp, content)
 }
 
+// longLens are the run lengths of the framed long contents: every small length and the
+// neighbourhoods of powers of two where buffers and fast paths change behaviour.
+var longLens = []int{0, 1, 2, 3, 4, 5, 6, 7, 8, 9, 10, 11, 12, 13, 14, 15, 16, 17, 18, 19, 20, 30, 31, 32, 33, 62, 63, 64, 65, 126, 127, 128, 129, 254, 255, 256, 257, 1022, 1023, 1024, 1025, 4094, 4095, 4096, 4097}
+
+// H_C04long checks content position p with framed long contents: two arbitrary bytes
+// around a run of 'a' (strings and names) or one of the numeric boundary families of
+// C09 (numbers), for the first nl run lengths of longLens.
+func H_C04long(p, nl int) {
+	hp := Holes[p]
+	n := longLens[verif.Concrete(verif.IntRange(0, nl))]
+	var content string
+	switch hp.Kind {
+	case "number":
+		verif.Assume(n <= 20)
+		numeric := []int{0, 1, 2, 3, 4, 5, 6, 11, 12, 13}
+		content = longSource(numeric[verif.Concrete(verif.IntRange(0, len(numeric)))], n)
+	case "ident":
+		hb := verif.BytesIn(2, "a_1Z")
+		content = "q" + hb[:1]
+		for i := 0; i < n; i++ {
+			content += "a"
+		}
+		content += hb[1:]
+	default:
+		hb := verif.BytesIn(2, "'\"`\\a\xc3\xa9 \n")
+		content = hb[:1]
+		for i := 0; i < n; i++ {
+			content += "a"
+		}
+		content += hb[1:]
+	}
+	CheckContent(hp, content)
+	verif.Cover("long-content")
+}
+
 // DictContents are fixed contents that spell something meaningful elsewhere in the language or in SQL.
 var DictContents = []string{"true", "null", "false", "count", "$left", "$right", "a b", "select", "and", "T", "__subquery0", "1", "0x1F", "a.b", "x) or (y", "-- c", "/*", "s", "n"}
 
@@ -170,10 +223,14 @@ func H_C04dict(p int) {
 func numParts(s string) (ip, fp string, exp int, ok bool) {
 	if len(s) >= 2 && s[0] == '0' && (s[1] == 'x' || s[1] == 'X') {
 		var v uint64
-		if len(s) == 2 || len(s) > 18 {
+		z := 2
+		for z < len(s)-1 && s[z] == '0' {
+			z++
+		}
+		if len(s) == 2 || len(s)-z > 16 {
 			return "", "", 0, false
 		}
-		for i := 2; i < len(s); i++ {
+		for i := z; i < len(s); i++ {
 			if !isHex(s[i]) {
 				return "", "", 0, false
 			}
